@@ -248,6 +248,8 @@ def gen_desc(rng, opts=None):
         ext = rng.random() < 0.4
         for _ in range(10):
             arbid = rng.randrange(0, 1 << 29) if ext else rng.randrange(0, 1 << 11)
+            if rng.random() < 0.08:
+                arbid = rng.choice([0, (1 << 29) - 1 if ext else (1 << 11) - 1])      # the ends of the identifier range
             if rng.random() < 0.2:
                 arbid = rng.randrange(0, 0x7FF)
             if frames and rng.random() < 0.2 and frames[0]["id"] < 0x800 and (frames[0]["id"], not frames[0]["ext"]) not in ids:
